@@ -48,7 +48,7 @@ def run(chk):
     walks = cl.random_walks(chk.seed + 19, 1500 if thorough else 80, 40)
     out = cl.run_scenarios(binary, sc + extra + walks, wd, "c19")
     outs, ifl, pfl = cl.validate(chk, out, wd, "c19", shard=1500 if thorough else 400)
-    cl.report(chk, outs, ifl, pfl, {"P19"}, WHAT)
+    cl.report(chk, outs, ifl, pfl, {"P19", "abnormal"}, WHAT)
     chk.cov["traces_validated_against_impl"] = len(outs)
     chk.cov["evaluations"] = len(outs)
     chk.cov["distinct_nontrivial"] = len(sc) + len(extra)
